@@ -2,6 +2,8 @@ package props
 
 import (
 	"fmt"
+	"github.com/yuin/goldmark"
+	"github.com/yuin/goldmark/parser"
 	"strings"
 
 	"github.com/yuin/goldmark/ast"
@@ -83,6 +85,11 @@ func c05Check(c *core.Ctx, pool *cfg.Pool, spec cfg.Spec, src []byte, st *oracle
 	}
 	probs := oracle.CheckAST(doc, src, st)
 	observeShape(c, doc, extName(spec))
+	// one document in five is parsed once more with a parser.Context of the caller's that is kept across documents
+	// (parser.WithContext): the tree it gives must be as well-formed, and as much inside ITS source, as any other
+	if c05CtxTick++; c05CtxTick%5 == 0 {
+		c05WithContext(c, md, name, src, st)
+	}
 	for _, p := range probs {
 		class, locus := "ast-"+p.Class, p.Locus
 		if c.Seen(class, locus) {
@@ -99,6 +106,66 @@ func c05Check(c *core.Ctx, pool *cfg.Pool, spec cfg.Spec, src []byte, st *oracle
 			return false
 		}, 1200)
 		c.Violation(&core.Violation{Class: class, Locus: locus, Config: name, Input: min, Detail: p.Detail})
+	}
+}
+
+var (
+	c05Ctx     = parser.NewContext()
+	c05CtxTick int
+	c05CtxDocs int
+)
+
+func c05WithContext(c *core.Ctx, md goldmark.Markdown, name string, src []byte, st *oracle.WalkStats) {
+	if c05CtxDocs++; c05CtxDocs%4000 == 0 {
+		c05Ctx = parser.NewContext() // a caller's context does not live for ever either
+	}
+	var doc ast.Node
+	pv, _ := core.Try(func() { doc = md.Parser().Parse(text.NewReader(src), parser.WithContext(c05Ctx)) })
+	c.Eval()
+	c.Count("trees_parsed_with_a_reused_context", 1)
+	if pv != nil || doc == nil {
+		c.Count("parse_panics_left_to_C01", 1)
+		return
+	}
+	for _, p := range oracle.CheckAST(doc, src, st) {
+		c.Violation(&core.Violation{Class: "ast-" + p.Class + ":reused-parser-context", Locus: p.Locus, Config: name, Input: src,
+			Detail: "parsed with a parser.Context that earlier documents were parsed with (parser.WithContext)\n" + p.Detail})
+	}
+}
+
+// c05ContextPairs: footnote and definition documents in pairs on one context - the first leaves something in the context
+// (definitions nobody referenced; references nobody defined), the second asks for exactly that.
+func c05ContextPairs(c *core.Ctx, pool *cfg.Pool, st *oracle.WalkStats) {
+	firsts := []string{"[^1]: a note nobody refers to, long enough that its positions lie beyond the end of a short document\n", "[^a]: x\n\n[^b]: y\n\n[^undefined]\n", "text[^1]\n", "[foo]: /url 'a title that is long enough to lie beyond the end of a short source'\n", "# heading\n\n[^1]: n\n\n    code\n",
+		"x[^1]\n\n[^1]: referenced\n\n[^2]: not referenced, with *emphasis* and a [link](/u) inside it\n"}
+	seconds := []string{"see[^1]\n", "[^1]\n", "a[^a] b[^b] c[^2]\n", "[foo] ![foo]\n", "[^1]: own\n\n[^1]\n", "x\n"}
+	k := 0
+	for _, sp := range []cfg.Spec{{Ext: cfg.ExtFootnote}, {Ext: cfg.ExtAll}, {Ext: cfg.ExtAll, AutoHeadingID: true, Attribute: true}} {
+		md := pool.Get(sp)
+		for _, f := range firsts {
+			for _, s2 := range seconds {
+				k++
+				if !c.Mine(k) {
+					continue
+				}
+				ctx := parser.NewContext()
+				for _, d := range []string{f, s2, s2} {
+					src := []byte(d)
+					var doc ast.Node
+					pv, _ := core.Try(func() { doc = md.Parser().Parse(text.NewReader(src), parser.WithContext(ctx)) })
+					c.Eval()
+					c.Count("trees_parsed_with_a_reused_context", 1)
+					if pv != nil || doc == nil {
+						c.Count("parse_panics_left_to_C01", 1)
+						continue
+					}
+					for _, p := range oracle.CheckAST(doc, src, st) {
+						c.Violation(&core.Violation{Class: "ast-" + p.Class + ":reused-parser-context", Locus: p.Locus, Config: sp.Name(), Input: src,
+							Detail: fmt.Sprintf("parsed with the parser.Context that had parsed %s before\n%s", q([]byte(f)), p.Detail)})
+					}
+				}
+			}
+		}
 	}
 }
 
@@ -130,6 +197,7 @@ func runC05(c *core.Ctx) {
 			c05Check(c, pool, specOf(s.cfg), []byte(s.in), st)
 		}
 	}
+	c05ContextPairs(c, pool, st)
 	// 1. exhaustive short strings
 	alpha, maxLen := wl.Alphabet14, 4
 	if !c.Quick() {
